@@ -461,3 +461,127 @@ func SplitPrimary(rng *rand.Rand, mons ...vnet.Monitor) *Built {
 	finish(c)
 	return &Built{C: c, Spec: Spec{Profile: "split-primary", Idx: -1, Seed: cfg.Seed}}
 }
+
+// DirectedLateEvents: quiescence after a decision the node did not vote for. A backup x lacks a
+// transaction of the proposal; the transaction reaches its pool by gossip, a timeout takes the
+// recovery-request path (re-scan of the pool), x's verifier rejects the completed block and x asks
+// for a view change; then the commits of the others decide the height at x. Until Reset nothing may
+// make x act again: neither the application's late OnTransaction for the transaction x had
+// requested, nor timeouts, new-transaction notifications or retransmitted payloads.
+func DirectedLateEvents(rng *rand.Rand, mons ...vnet.Monitor) *Built {
+	n, amev := 4, int64(-1)
+	if rng != nil {
+		n = []int{4, 5, 7}[rng.Intn(3)]
+		if rng.Intn(3) == 0 {
+			amev = 0
+		}
+	}
+	cfg := vnet.Config{Seed: 778, Profile: "directed-late-events", N: n, Heights: 1, AMEV: amev, TPB: time.Second, TxPerBlock: 4,
+		Epoch: time.Date(2031, 5, 1, 0, 0, 0, 0, time.UTC).UnixNano(), MaxSteps: 1000}
+	if rng != nil {
+		cfg.Seed = rng.Int63()
+		if rng.Intn(3) == 0 {
+			cfg.MaxTPB = 3 * cfg.TPB
+		}
+	}
+	cfg.BaseHeight = uint32(2*n - 1) // height 2n: primary of view 0 is validator 0
+	cfg.GenesisTs = uint64(cfg.Epoch) - uint64(cfg.TPB)
+	cfg.K.SlowNode, cfg.K.ResetDelayNode = -1, -1
+	cfg.Roles = make([]vnet.Role, n)
+	c := vnet.NewCluster(cfg, mons...)
+	h := cfg.BaseHeight + 1
+	x := c.Nodes[1]
+	var txs []*vnet.Tx
+	k := 1
+	if rng != nil {
+		k = 1 + rng.Intn(3)
+	}
+	for i := 0; i < k; i++ {
+		txs = append(txs, c.NewTx(false))
+	}
+	for _, nd := range c.Nodes {
+		if nd != x {
+			for _, t := range txs {
+				nd.Pool[t.Hash()] = t
+			}
+		}
+	}
+	x.RejectBlocks[[2]uint32{h, 0}] = true
+	for i := n - 1; i >= 0; i-- {
+		c.Nodes[i].Start() // the primary starts last and proposes the transactions
+	}
+	deliverWhere(c, func(e *vnet.Envelope) bool { return e.P.T == dbft.PrepareRequestType }) // x requests the transactions
+	// the others finish the height among themselves
+	for i := 0; i < 6; i++ {
+		deliverWhere(c, func(e *vnet.Envelope) bool { return e.To != x.ID })
+	}
+	// the transactions reach x's pool by gossip; no OnTransaction yet
+	for _, t := range txs {
+		x.Pool[t.Hash()] = t
+	}
+	x.Timeout(h, 0, "scripted") // recovery-request path: re-scan, block rejected, change view requested
+	// now the (pre)commits of the others decide the height at x
+	deliverWhere(c, func(e *vnet.Envelope) bool { return e.To == x.ID && e.P.T != dbft.PrepareResponseType })
+	deliverWhere(c, func(e *vnet.Envelope) bool { return e.To == x.ID })
+	// late events before the application calls Reset
+	late := []func(){
+		func() {
+			for _, t := range txs {
+				x.SupplyTx(t)
+			}
+		},
+		func() { x.Timeout(h, 0, "late") },
+		func() { x.NewTxNotify() },
+		func() {
+			for _, p := range c.GenList {
+				if p.Hgt == h && (p.T == dbft.PrepareRequestType || p.T == dbft.CommitType) {
+					x.Receive(p)
+				}
+			}
+		},
+	}
+	order := []int{0, 1, 2, 3}
+	if rng != nil {
+		rng.Shuffle(len(order), func(i, j int) { order[i], order[j] = order[j], order[i] })
+	}
+	for _, i := range order {
+		if x.Live() {
+			late[i]()
+		}
+	}
+	finish(c)
+	return &Built{C: c, Spec: Spec{Profile: cfg.Profile, Idx: -1, Seed: cfg.Seed}}
+}
+
+// DirectedParkedPreCommits: regression scenario of the repaired defect of DESIGN §5.16. Anti-MEV on,
+// Byzantine primary 0. Validator 3 lacks a transaction of the proposal; while it waits, a garbage
+// pre-commit of the primary is parked; the transaction arrives, validator 3's verifier rejects the
+// pre-block (it asks for a view change); then the genuine pre-commits of validators 1 and 2 arrive.
+// The parked garbage must have been verified and dropped when the transactions were complete,
+// whatever the verdict on the block was: validator 3 holds two verifying pre-commits, not M = 3.
+func DirectedParkedPreCommits(mons ...vnet.Monitor) *Built {
+	c, byz := directedCluster("directed-parked-precommits", 0, mons)
+	a := c.Adv
+	h := c.Cfg.BaseHeight + 1
+	ts := c.Nodes[1].TipTs() + uint64(time.Second)
+	t := c.NewTx(false)
+	c.Nodes[1].Pool[t.Hash()] = t
+	c.Nodes[2].Pool[t.Hash()] = t
+	c.Nodes[3].RejectBlocks[[2]uint32{h, 0}] = true
+	mk := func(mt dbft.MessageType, body any) *vnet.Payload {
+		return &vnet.Payload{T: mt, Hgt: h, View: 0, Idx: 0, Body: body}
+	}
+	p := mk(dbft.PrepareRequestType, &vnet.PrepReq{Ts: ts, Nc: 11, Hashes: []vnet.H{t.Hash()}})
+	a.Inject(byz, p, []int{1, 2, 3}, "proposal with a transaction validator 3 lacks")
+	deliverWhere(c, func(e *vnet.Envelope) bool { return e.P == p })
+	garbage := mk(dbft.PreCommitType, &vnet.PreCommitB{D: make([]byte, 16)})
+	a.Inject(byz, garbage, []int{3}, "garbage pre-commit while the transaction is missing")
+	deliverWhere(c, func(e *vnet.Envelope) bool { return e.P == garbage })
+	c.Nodes[3].SupplyTx(t) // completes the proposal; the verifier rejects the pre-block
+	// validators 1 and 2 prepare and pre-commit among themselves, then their pre-commits reach validator 3
+	deliverWhere(c, func(e *vnet.Envelope) bool { return e.P.T == dbft.PrepareResponseType && (e.To == 1 || e.To == 2) })
+	deliverWhere(c, func(e *vnet.Envelope) bool { return e.P.T == dbft.PreCommitType && e.To == 3 })
+	deliverWhere(c, func(e *vnet.Envelope) bool { return e.To != 0 })
+	finish(c)
+	return &Built{C: c, Spec: Spec{Profile: "directed-parked-precommits", Idx: -1, Seed: c.Cfg.Seed}}
+}
